@@ -10,6 +10,13 @@
 //                               real report_proxy_agent_aggregate_status (hook H7) runs once on the file
 //                               /var/log/azure-proxy-agent/status.json (private tmpfs) and the reported
 //                               status.status is printed as a digit
+//   Q <polls>                -> same polls as P; prints, comma separated, the number of lines each poll's
+//                               report_proxy_agent_aggregate_status call appended to the extension's log (the
+//                               state events of a poll are written there by event_logger::write_event, next to
+//                               the poll's plain log lines; the check calibrates the plain lines away)
+//   W k:v k:v ...            -> the real write_state_event (hook H7 tap) with MAX_STATE_COUNT as the code has it
+//                               and a unique marker message per notification; one digit per notification: how
+//                               often the marker appeared in the extension's log (1 emitted, 0 silent)
 use gpaext::common::StatusState;
 use gpaext::constants;
 use gpaext::service_main::service_state::ServiceState;
@@ -73,9 +80,78 @@ fn file_status_code(dir: &std::path::Path, seq: &str) -> char {
     }
 }
 
+const EXT_LOG_DIR: &str = "/var/log/c20-ext-log";
+const EXT_LOG_NAME: &str = "C20Driver.log";
+
+fn init_ext_logger() {
+    static LOGGER: std::sync::Once = std::sync::Once::new();
+    LOGGER.call_once(|| gpaext::logger::init_logger(EXT_LOG_DIR.to_string(), EXT_LOG_NAME));
+}
+
+fn ext_log_len() -> u64 {
+    std::fs::metadata(std::path::Path::new(EXT_LOG_DIR).join(EXT_LOG_NAME)).map(|m| m.len()).unwrap_or(0)
+}
+
+// the bytes appended to the current log file since `from` (None when the file was rolled in between)
+fn ext_log_since(from: u64) -> Option<Vec<u8>> {
+    use std::io::{Read, Seek, SeekFrom};
+    let mut f = match std::fs::File::open(std::path::Path::new(EXT_LOG_DIR).join(EXT_LOG_NAME)) {
+        Ok(f) => f,
+        Err(_) => return if from == 0 { Some(vec![]) } else { None },
+    };
+    let len = f.metadata().map(|m| m.len()).unwrap_or(0);
+    if len < from {
+        return None;
+    }
+    f.seek(SeekFrom::Start(from)).ok()?;
+    let mut v = Vec::new();
+    f.read_to_end(&mut v).ok()?;
+    Some(v)
+}
+
+fn count_sub(hay: &[u8], needle: &[u8]) -> usize {
+    if needle.is_empty() || hay.len() < needle.len() {
+        return 0;
+    }
+    hay.windows(needle.len()).filter(|w| *w == needle).count()
+}
+
+fn run_state_events(line_no: usize, kvs: &[(&str, &str)]) -> String {
+    if std::env::var("C20_PRIVATE_VAR_LOG").is_err() {
+        return "!no-private-mount".to_string();
+    }
+    init_ext_logger();
+    let mut svc = ServiceState::default();
+    let mut o = String::new();
+    for (i, (k, v)) in kvs.iter().enumerate() {
+        let marker = format!("C20EV-{}-{}-#", line_no, i);
+        let before = ext_log_len();
+        let r = std::panic::catch_unwind(std::panic::AssertUnwindSafe(|| {
+            gpaext::service_main::verif_taps::write_state_event(k, v, marker.clone(), &mut svc);
+        }));
+        if r.is_err() {
+            o.push('9');
+            continue;
+        }
+        match ext_log_since(before) {
+            Some(bytes) => {
+                // the marker is missing when the (never drained) event queue is full: write_event then logs a
+                // "failed to push" line instead of the message -- any appended line means "emitted"
+                let mut n = count_sub(&bytes, marker.as_bytes());
+                if n == 0 && bytes.contains(&b'\n') {
+                    n = 1;
+                }
+                o.push(if n > 8 { '8' } else { (b'0' + n as u8) as char });
+            }
+            None => o.push('?'),
+        }
+    }
+    o
+}
+
 // Each step prints two digits: the status the monitor loop holds in memory, and the status in the status file
 // the extension writes (9 9 = the step panicked).
-fn run_polls(polls: &str) -> String {
+fn run_polls(polls: &str, lines_out: &mut Vec<String>) -> String {
     use gpaext::structs::{FormattedMessage, StatusObj};
     use std::os::unix::process::ExitStatusExt;
     let dir = std::path::Path::new(proxy_agent_shared::proxy_agent_aggregate_status::PROXY_AGENT_AGGREGATE_STATUS_FOLDER);
@@ -87,8 +163,7 @@ fn run_polls(polls: &str) -> String {
     let status_dir = std::path::PathBuf::from("/var/log/c20-status");
     let _ = std::fs::create_dir_all(&status_dir);
     // the extension's logger must be initialised once (get_logger_key panics otherwise); log into the private tmpfs
-    static LOGGER: std::sync::Once = std::sync::Once::new();
-    LOGGER.call_once(|| gpaext::logger::init_logger("/var/log/c20-ext-log".to_string(), "C20Driver.log"));
+    init_ext_logger();
     let ext_version = "9.9.9".to_string();
     let mut status = StatusObj {
         name: constants::PLUGIN_NAME.to_string(),
@@ -108,6 +183,7 @@ fn run_polls(polls: &str) -> String {
     let mut k = 0usize;
     for p in polls.chars() {
         k += 1;
+        let mut appended: Option<usize> = Some(0);
         let r = std::panic::catch_unwind(std::panic::AssertUnwindSafe(|| {
             match p {
                 // install attempts of the monitor loop (report_proxy_agent_service_status reports by itself)
@@ -139,16 +215,20 @@ fn run_polls(polls: &str) -> String {
             }
             // restored_in_error = true: the rollback step (runs the setup tool) is not part of this property
             let mut restored = true;
+            let before = ext_log_len();
             gpaext::service_main::verif_taps::report_proxy_agent_aggregate_status(
                 &ext_version, &mut status, &mut st, &mut restored, &mut svc);
+            appended = ext_log_since(before).map(|b| b.iter().filter(|c| **c == b'\n').count());
             // the monitor loop then writes the status file
             gpaext::common::report_status(status_dir.clone(), "7", &status);
         }));
         if r.is_err() {
             o.push_str("99");
+            lines_out.push("!".to_string());
         } else {
             o.push(code(&status.status));
             o.push(file_status_code(&status_dir, "7"));
+            lines_out.push(match appended { Some(n) => n.to_string(), None => "?".to_string() });
         }
     }
     o
@@ -159,6 +239,7 @@ pub fn main() {
     let stdin = io::stdin();
     let stdout = io::stdout();
     let mut out = io::BufWriter::new(stdout.lock());
+    let mut line_no = 0usize;
     for line in stdin.lock().lines() {
         let line = line.unwrap();
         let mut it = line.split(' ');
@@ -183,7 +264,28 @@ pub fn main() {
             }
             Some("P") => {
                 let polls = it.next().unwrap_or("");
-                writeln!(out, "{}", run_polls(polls)).unwrap();
+                writeln!(out, "{}", run_polls(polls, &mut Vec::new())).unwrap();
+            }
+            Some("Q") => {
+                let polls = it.next().unwrap_or("");
+                let mut lines = Vec::new();
+                let r = run_polls(polls, &mut lines);
+                if r.starts_with('!') {
+                    writeln!(out, "{}", r).unwrap();
+                } else {
+                    writeln!(out, "{}", lines.join(",")).unwrap();
+                }
+            }
+            Some("W") => {
+                line_no += 1;
+                let kvs: Vec<(&str, &str)> = it
+                    .filter(|kv| !kv.is_empty())
+                    .map(|kv| {
+                        let mut p = kv.splitn(2, ':');
+                        (p.next().unwrap(), p.next().unwrap_or(""))
+                    })
+                    .collect();
+                writeln!(out, "{}", run_state_events(line_no, &kvs)).unwrap();
             }
             Some("R") => {
                 let n: u64 = it.next().unwrap().parse().unwrap();
